@@ -38,7 +38,7 @@ check("C19", "harness/c19_leaks.cxx", workers=(8, 16), wall=(40, 900), leaks=Tru
       title="destroying a Lexicon frees all its memory; live use never touches dead storage")
 HELGRIND = ["valgrind", "--tool=helgrind", "--num-callers=30", "--error-exitcode=0", "--history-level=approx",
             "--suppressions=" + os.path.join(VERIF, "tools", "helgrind.supp")]
-check("C20", "harness/c20_isolation.cxx", flavour="tsan", workers=(4, 16), wall=(60, 900),
+check("C20", "harness/c20_isolation.cxx", flavour="tsan", workers=(4, 6), wall=(60, 900),
       aux=[dict(name="helgrind", flavour="plain", tiers=("thorough",), workers=2, wall=600, prefix=HELGRIND)],
       title="Lexicons are isolated: independent instances can be used from different threads")
 check("C14", "harness/c14_accessors.cxx", workers=(2, 16), wall=(60, 900), asan_extra="detect_stack_use_after_return=0",
